@@ -518,17 +518,49 @@ class SymRatio:
             return o.n
         raise Inconclusive("comparison of a ratio-abstracted float with a different kind of value")
 
+    def _pair(self, o):
+        """(a, b) integers with  self ? o  <=>  a ? b.  Same divisor: the numerators.  Different integral
+        divisors: cross-multiplied (distinct quotients n1/c1, n2/c2 differ by >= 1/(c1*c2), far above one ulp,
+        so the comparison of the doubles equals the comparison of the rationals)."""
+        if isinstance(o, SymRatio):
+            if o.c == self.c:
+                return self.n, o.n
+            c1, c2 = int(self.c), int(o.c)
+            if c1 == self.c and c2 == o.c:
+                return self.n * c2, o.n * c1
+        raise Inconclusive("comparison of a ratio-abstracted float with a different kind of value")
+
+    def _shift(self, d, sign):
+        """n/c +- d for a concrete d with d*c integral (e.g. a half-degree dead band): (n +- d*c)/c"""
+        if isinstance(d, (int, float)) and not isinstance(d, bool):
+            k = d * self.c
+            if k == int(k):
+                return SymRatio(self.n + sign * int(k), self.c)
+        raise Inconclusive("arithmetic on a ratio-abstracted float that the abstraction does not cover")
+
+    def __add__(self, d):
+        return self._shift(d, 1)
+
+    __radd__ = __add__
+
+    def __sub__(self, d):
+        return self._shift(d, -1)
+
     def __lt__(self, o):
-        return self.n < self._other(o)
+        a, b = self._pair(o)
+        return a < b
 
     def __le__(self, o):
-        return self.n <= self._other(o)
+        a, b = self._pair(o)
+        return a <= b
 
     def __gt__(self, o):
-        return self.n > self._other(o)
+        a, b = self._pair(o)
+        return a > b
 
     def __ge__(self, o):
-        return self.n >= self._other(o)
+        a, b = self._pair(o)
+        return a >= b
 
     def __eq__(self, o):
         if isinstance(o, (int, float)) and not isinstance(o, bool):
@@ -539,7 +571,8 @@ class SymRatio:
             return False
         if not isinstance(o, SymRatio):
             return False if not isinstance(o, (SymInt, SymFloat)) else self._other(o)
-        return self.n == self._other(o)
+        a, b = self._pair(o)
+        return a == b
 
     def __ne__(self, o):
         return Not(self.__eq__(o))
